@@ -108,8 +108,8 @@ func (vm *VM) errIndexOutOfRange() runtimeError {
 func (vm *VM) newPanic(msg any) *PanicError {
 	return &PanicError{
 		message:  msg,
-		path:     vm.fn.InstructionInfo[vm.pc].Path,
-		position: vm.fn.InstructionInfo[vm.pc].Position,
+		path:     vm.fn.InstructionInfo[vm.pc-1].Path,
+		position: vm.fn.InstructionInfo[vm.pc-1].Position,
 	}
 }
 
